@@ -5,8 +5,8 @@
    index set in any order, every prescribed values.  gen_* are the definitions REGENERATED from the source. *)
 From Coq Require Import List ZArith Bool Arith Ring Lia.
 Import ListNotations.
-Require Import Base.C05_Np Model.C05_BC Model.C05_MPC Model.C05_Ext Proofs.C05_IdxProofs Proofs.C05_CondenseProofs Proofs.C05_EnforceProofs
-               Proofs.C05_ChainProofs Proofs.C05_PenalizeProofs Proofs.C05_EquivProofs Proofs.C05_MPCProofs Proofs.C05_ExtProofs Gen.C05Gen Dyn.C05Tie.
+Require Import Base.C05_Np Model.C05_BC Model.C05_MPC Model.C05_Ext Model.C05_Solve Proofs.C05_IdxProofs Proofs.C05_CondenseProofs Proofs.C05_EnforceProofs
+               Proofs.C05_ChainProofs Proofs.C05_PenalizeProofs Proofs.C05_EquivProofs Proofs.C05_MPCProofs Proofs.C05_ExtProofs Proofs.C05_SolveProofs Gen.C05Gen Dyn.C05Tie.
 
 Definition is_ring {R} (o : ring_ops R) := ring_theory (r0 o) (r1 o) (radd o) (rmul o) (rsub o) (ropp o) (@eq R).
 
@@ -310,6 +310,51 @@ Theorem C05_mpc_sound :
     (forall i, In i (U ++ M) -> vnth o (matvec o A x) i = vnth o b i).
 Proof. exact (@mpc_sound). Qed.
 Print Assumptions C05_mpc_sound.
+
+(* ---- the dispatch wrapper solve (regenerated from the source: callee, positional arguments, expansion guard), for ALL argument
+   values and ANY solvers lin / eig:
+   the tuple condense returns, passed positionally, is (matrix, right-hand side, x, I): the solver gets the condensed
+   system and its result is expanded through (x, I); the pair enforce returns leaves x, I unset: the solver's result is returned;
+   a sparse second argument goes to the eigen path, every eigenvector is expanded; the tuple of mpc uses the returned expansion;
+   any other second argument raises. *)
+Theorem C05_solve_forwarding :
+  forall (R : Type) (o : ring_ops R) (lin : list (list (nat * R)) -> list R -> list R)
+         (eig : list (list (nat * R)) -> list (list (nat * R)) -> list R * list (list R)),
+    (forall A b (x : list R) Isel Dsel AII bI x' I', condense o A b x Isel Dsel = Some (AII, bI, x', I') ->
+       gen_solve o lin eig AII (RVec bI) (Some x') (Some (IArr I')) = Some (SVec (gen_expand x' I' (lin AII bI)))) /\
+    (forall M' (b' : list R), gen_solve o lin eig M' (RVec b') None None = Some (SVec (lin M' b'))) /\
+    (forall A B (x : list R) Isel Dsel AII BII x' I', condense_eig A B x Isel Dsel = Some (AII, BII, x', I') ->
+       gen_solve o lin eig AII (RMat BII) (Some x') (Some (IArr I')) = Some (SEig (fst (eig AII BII)) (gen_expand_eig x' I' (snd (eig AII BII))))) /\
+    (forall Bm (y x0 : list R) perm f,
+       gen_solve o lin eig Bm (RVec y) (Some x0) (Some (ITup perm f)) = Some (SVec (gen_expand_tuple o x0 perm f (lin Bm y)))) /\
+    (forall A x Ia, gen_solve o lin eig A ROther x Ia = None).
+Proof.
+  intros R o lin eig. split; [|split; [|split; [|split]]].
+  - intros. rewrite gen_solve_is_model. exact (solve_condense_forwarding o lin eig A b x Isel Dsel AII bI x' I' H).
+  - intros. rewrite gen_solve_is_model. reflexivity.
+  - intros. rewrite gen_solve_is_model. exact (solve_condense_eig_forwarding o lin eig A B x Isel Dsel AII BII x' I' H).
+  - intros. rewrite gen_solve_is_model. reflexivity.
+  - intros. rewrite gen_solve_is_model. reflexivity.
+Qed.
+Print Assumptions C05_solve_forwarding.
+
+(* end to end: solve applied to the tuple of condense, with any solver that solves the condensed system, returns a vector that
+   carries x on D and satisfies the original equations on I *)
+Theorem C05_solve_condense_end_to_end :
+  forall (R : Type) (o : ring_ops R), is_ring o ->
+  forall lin eig (A : list (list (nat * R))) (b x : list R) Isel Dsel AII bI x' I' y,
+    length x = length A -> rows_in_range (length A) A ->
+    (forall S, Isel = Some S -> given_ok (length A) S) -> (forall S, Dsel = Some S -> given_ok (length A) S) ->
+    condense o A b x Isel Dsel = Some (AII, bI, x', I') ->
+    length (lin AII bI) = length I' -> matvec o AII (lin AII bI) = bI ->
+    gen_solve o lin eig AII (RVec bI) (Some x') (Some (IArr I')) = Some (SVec y) ->
+    exists D', gen_init_bc (length A) Isel Dsel = Some (I', D') /\ length y = length A /\
+      (forall d, In d D' -> vnth o y d = vnth o x d) /\ (forall i, In i I' -> vnth o (matvec o A y) i = vnth o b i).
+Proof.
+  intros R o Rth lin eig A b x Isel Dsel AII bI x' I' y Hx HA HI HD Hc Hl Hs Hy. rewrite gen_solve_is_model in Hy.
+  exact (solve_condense_end_to_end o Rth lin eig A b x Isel Dsel AII bI x' I' y Hx HA HI HD Hc Hl Hs Hy).
+Qed.
+Print Assumptions C05_solve_condense_end_to_end.
 
 (* ---- non-vacuity: the matrix of finding F6 (row 1 stores nothing), Z entries, D = [0;1;2] and D = [1;0] *)
 Definition ex_A : csr Z := {| indptr := [0; 2; 2; 5; 8]%Z; indices := [1; 0; 3; 0; 2; 1; 3; 2]; data := [1; 2; 3; 0; 5; 6; 7; 8]%Z |}.
